@@ -10,6 +10,11 @@
 //! Knife edges (a query closer than EPS/TAU to a containment boundary) are never
 //! asserted one way or the other: there the model returns the *set* of acceptable
 //! owners and the library must agree with one of them (continuity only).
+//! Exception (section ntv2-abutting-siblings): inside NTv2 files whose siblings abut, a coordinate
+//! that IS a header bound (or is clear of every bound by > 3e-6 cell) has exactly one documented
+//! owner (lower edges inclusive, upper edges exclusive, 1e-6 cell tolerance), asserted for every
+//! order of the records; one ulp / 1e-9 cell beside a bound the owner under exact half-open
+//! containment is acceptable as well, no other level is.
 
 use geodesy::authoring::{grids_at, BaseGrid, Grid, Ntv2Grid};
 use geodesy::prelude::*;
@@ -2302,6 +2307,589 @@ fn selftest() {
     }
 }
 
+// ---- section B2: NTv2 files whose sibling sub-grids ABUT (tilings), every file order --------------------------
+//
+// Real densified NTv2 files deliver adjacent tiles under one parent: siblings share a meridian or a parallel
+// exactly. A point on such a shared edge lies in the closed extent of both tiles; the documented rule
+// (find_grid comment + repository test ntv2_multi_subgrid_find_grid: lower edges inclusive, "points on either
+// upper latitude or longitude are considered outside the grid", tolerance 1e-6 grid cells) gives it to the
+// tile that has it on its LOWER edge, whatever the order of the records. Node values here are deliberately
+// inconsistent between levels (and, in two of three modes, between tiles), so the level chosen is visible.
+
+#[derive(Clone, Debug, Serialize, Deserialize)]
+struct BlockDraw {
+    parent: u16,
+    nr: u8,
+    nc: u8,
+    h: [u8; 3],
+    w: [u8; 3],
+    off_s: u8,
+    off_w: u8,
+    pad_n: u8,
+    pad_e: u8,
+    missing: u16,
+    k: [u8; 9],
+}
+
+/// One or two abutting root grids; block 0 tiles (part of) root 0 with nr x nc abutting children (tile heights
+/// and widths 1..2 parent cells, each tile with its own refinement), later blocks tile a childless sub-grid
+/// (the second root or a tile: nested tilings, cousins abutting across a tile border).
+#[derive(Clone, Debug, Serialize, Deserialize)]
+struct TileSpec {
+    lat0_q: i32,
+    lon0_q: i32,
+    sp_lat: u8,
+    sp_lon: u8,
+    second: u8,
+    blocks: Vec<BlockDraw>,
+    vmode: u8, // 0 independent random/affine field per sub-grid, 1 one constant per sub-grid, 2 one constant per depth (tiles agree with each other, not with the parent)
+    vals: ValSpec,
+    name_seed: u32,
+    perm_seed: u32,
+    big_endian: bool,
+    end_rec: bool,
+}
+
+const TL_MAX_SUBS: usize = 12;
+const TL_ALL_PERMS_UP_TO: usize = 5;
+const TL_SAMPLED_PERMS: usize = 32;
+
+struct TlGeo {
+    s: i64,
+    w: i64,
+    rc: i64,
+    cc: i64,
+    dlat: i64,
+    dlon: i64,
+    parent: Option<usize>,
+    depth: usize,
+    has_kids: bool,
+}
+
+/// shrink (offset, sizes, pad) until it fits into `avail` cells
+fn tl_fit(off: &mut i64, sizes: &mut Vec<i64>, pad: &mut i64, avail: i64) {
+    while *off + sizes.iter().sum::<i64>() + *pad > avail {
+        if *pad > 0 {
+            *pad -= 1;
+        } else if *off > 0 {
+            *off -= 1;
+        } else if let Some(i) = sizes.iter().position(|s| *s > 1) {
+            sizes[i] -= 1;
+        } else if sizes.len() > 1 {
+            sizes.pop();
+        } else {
+            break;
+        }
+    }
+}
+
+fn tl_resolve(s: &TileSpec) -> (Vec<RSub>, String) {
+    let dlat = SPACINGS[pick_u8(s.sp_lat, SPACINGS.len())];
+    let dlon = SPACINGS[pick_u8(s.sp_lon, SPACINGS.len())];
+    let (lat0, lon0) = (s.lat0_q as i64 * 225, s.lon0_q as i64 * 225);
+    let dims = |b: &BlockDraw, first: bool| {
+        let (mut nr, mut nc) = (b.nr.clamp(1, 3) as usize, b.nc.clamp(1, 3) as usize);
+        if first && nr * nc < 2 {
+            if b.missing & 1 == 0 { nc = 2 } else { nr = 2 }
+        }
+        let hs: Vec<i64> = (0..nr).map(|i| b.h[i].clamp(1, 2) as i64).collect();
+        let ws: Vec<i64> = (0..nc).map(|j| b.w[j].clamp(1, 2) as i64).collect();
+        ((b.off_s.min(1) as i64, hs, b.pad_n.min(1) as i64), (b.off_w.min(1) as i64, ws, b.pad_e.min(1) as i64))
+    };
+    let mut geo: Vec<TlGeo> = vec![];
+    let mut label = String::new();
+    let Some(b0) = s.blocks.first() else { return (vec![], label) };
+    let ((o_s, hs0, p_n), (o_w, ws0, p_e)) = dims(b0, true);
+    let (rows0, cols0) = (o_s + hs0.iter().sum::<i64>() + p_n, o_w + ws0.iter().sum::<i64>() + p_e);
+    geo.push(TlGeo { s: lat0, w: lon0, rc: rows0, cc: cols0, dlat, dlon, parent: None, depth: 0, has_kids: false });
+    let sh = (s.name_seed & 1) as i64;
+    let (rc2, cc2) = (2 + ((s.name_seed >> 1) & 1) as i64, 2 + ((s.name_seed >> 2) & 1) as i64);
+    match s.second % 3 {
+        1 => geo.push(TlGeo { s: lat0 + sh * dlat, w: lon0 + cols0 * dlon, rc: rc2, cc: cc2, dlat, dlon, parent: None, depth: 0, has_kids: false }),
+        2 => geo.push(TlGeo { s: lat0 + rows0 * dlat, w: lon0 - sh * dlon, rc: rc2, cc: cc2, dlat, dlon, parent: None, depth: 0, has_kids: false }),
+        _ => {}
+    }
+    for (bi, b) in s.blocks.iter().enumerate() {
+        if geo.len() >= TL_MAX_SUBS {
+            break;
+        }
+        let p = if bi == 0 {
+            0
+        } else {
+            let cs: Vec<usize> = (0..geo.len()).filter(|&i| !geo[i].has_kids && geo[i].depth <= 2).collect();
+            if cs.is_empty() {
+                continue;
+            }
+            cs[pick(b.parent, cs.len())]
+        };
+        let ((mut o_s, mut hs, mut p_n), (mut o_w, mut ws, mut p_e)) = dims(b, bi == 0);
+        tl_fit(&mut o_s, &mut hs, &mut p_n, geo[p].rc);
+        tl_fit(&mut o_w, &mut ws, &mut p_e, geo[p].cc);
+        let (pdlat, pdlon) = (geo[p].dlat, geo[p].dlon);
+        let ks: Vec<i64> = [2i64, 3, 4, 5].into_iter().filter(|k| pdlat % k == 0 && pdlon % k == 0 && pdlat / k >= MIN_SPACING && pdlon / k >= MIN_SPACING).collect();
+        if ks.is_empty() {
+            continue;
+        }
+        let all: Vec<(usize, usize)> = (0..hs.len()).flat_map(|i| (0..ws.len()).map(move |j| (i, j))).collect();
+        let mut kept: Vec<(usize, usize)> = all.iter().cloned().filter(|(i, j)| b.missing >> (i * 3 + j + 1) & 1 == 0).collect();
+        if kept.len() < all.len().min(2) {
+            kept = all.clone();
+        }
+        if bi == 0 {
+            label = format!("tiling={}x{}{}", hs.len(), ws.len(), if kept.len() < all.len() { ",with-holes" } else { "" });
+        }
+        for (i, j) in kept {
+            if geo.len() >= TL_MAX_SUBS {
+                break;
+            }
+            let k = ks[pick_u8(b.k[i * 3 + j], ks.len())];
+            let r0 = o_s + hs[..i].iter().sum::<i64>();
+            let c0 = o_w + ws[..j].iter().sum::<i64>();
+            let g = TlGeo { s: geo[p].s + r0 * pdlat, w: geo[p].w + c0 * pdlon, rc: hs[i] * k, cc: ws[j] * k, dlat: pdlat / k, dlon: pdlon / k, parent: Some(p), depth: geo[p].depth + 1, has_kids: false };
+            geo.push(g);
+            geo[p].has_kids = true;
+        }
+    }
+    let seed = s.name_seed as u64;
+    let names: Vec<String> = (0..geo.len()).map(|i| nt_name(seed, i)).collect();
+    let vs0 = s.vals.seed as u64;
+    let konst = |key: u64, band: u64| {
+        let v = 0.7 + s.vals.base.0 * hunit(vs0, 100 + 7 * key + band) + s.vals.amp.0 * (1.0 + key as f64) * if hunit(vs0, 300 + band) < 0.0 { -1.0 } else { 1.0 };
+        (v * 1.0e4).round() / 1.0e4
+    };
+    let subs: Vec<RSub> = geo
+        .iter()
+        .enumerate()
+        .map(|(i, g)| {
+            let (rows, cols) = (g.rc as usize + 1, g.cc as usize + 1);
+            let vs = s.vals.derive(i as u64);
+            let mut lat = vec![0f32; rows * cols];
+            let mut lon = vec![0f32; rows * cols];
+            for r in 0..rows {
+                for c in 0..cols {
+                    let (a, b) = match s.vmode % 3 {
+                        0 => (vs.at(0, r, c), vs.at(1, r, c)),
+                        1 => (konst(i as u64, 0), konst(i as u64, 1)),
+                        _ => (konst(g.depth as u64, 0), konst(g.depth as u64, 1)),
+                    };
+                    lat[r * cols + c] = a as f32;
+                    lon[r * cols + c] = b as f32;
+                }
+            }
+            RSub {
+                name: names[i].clone(),
+                parent: g.parent,
+                parent_name: g.parent.map(|p| names[p].clone()).unwrap_or("NONE".into()),
+                s_lat: g.s as f64,
+                n_lat: (g.s + g.rc * g.dlat) as f64,
+                w_lon: g.w as f64,
+                e_lon: (g.w + g.cc * g.dlon) as f64,
+                dlat: g.dlat as f64,
+                dlon: g.dlon as f64,
+                rows,
+                cols,
+                depth: g.depth,
+                lat,
+                lon,
+                kid_w: false,
+                kid_e: false,
+            }
+        })
+        .collect();
+    (subs, label)
+}
+
+fn tl_block() -> impl Strategy<Value = BlockDraw> {
+    let n = || prop_oneof![3 => Just(1u8), 5 => Just(2u8), 2 => Just(3u8)];
+    (any::<u16>(), n(), n(), prop::array::uniform3(1u8..=2), prop::array::uniform3(1u8..=2), (0u8..=1, 0u8..=1, 0u8..=1, 0u8..=1), prop_oneof![3 => Just(0u16), 1 => any::<u16>()], prop::array::uniform9(any::<u8>()))
+        .prop_map(|(parent, nr, nc, h, w, (off_s, off_w, pad_n, pad_e), missing, k)| BlockDraw { parent, nr, nc, h, w, off_s, off_w, pad_n, pad_e, missing, k })
+}
+
+/// Query positioned on a feature of one sub-grid: feat 0..4 a side (N, S, E, W), 4..8 a corner (NE, NW, SE, SW),
+/// 8 the interior, 9..13 the line of a side continued beyond the sub-grid. `vx`/`vy`: how the coordinate across
+/// the edge is produced: 0 the bound as the library computes it (arcsec.to_radians()/3600), 1 the other rounding
+/// order ((arcsec/3600).to_radians()), 2/3 one ulp up/down, 4/5 +-1e-9 cell of the root grid, 6/7 +-1e-2 and
+/// 8/9 +-1e-3 cell of the finest sub-grid of the file.
+#[derive(Clone, Debug, Serialize, Deserialize)]
+struct TQ {
+    sub: u16,
+    feat: u8,
+    vx: u8,
+    vy: u8,
+    a1: F,
+    a2: F,
+    node: u16,
+    at_node: bool,
+}
+
+fn tq_strategy() -> impl Strategy<Value = TQ> {
+    let var = || prop_oneof![4 => Just(0u8), 2 => Just(1u8), 1 => Just(2u8), 1 => Just(3u8), 1 => Just(4u8), 1 => Just(5u8), 1 => Just(6u8), 1 => Just(7u8), 1 => Just(8u8), 1 => Just(9u8)];
+    (any::<u16>(), prop_oneof![5 => 0u8..4, 4 => 4u8..8, 1 => Just(8u8), 2 => 9u8..13], var(), var(), 0.0f64..1.0, 0.0f64..1.0, any::<u16>(), any::<bool>())
+        .prop_map(|(sub, feat, vx, vy, a1, a2, node, at_node)| TQ { sub, feat, vx, vy, a1: F(a1), a2: F(a2), node, at_node })
+}
+
+#[derive(Clone, Debug, Serialize, Deserialize)]
+struct TileCase {
+    f: TileSpec,
+    qs: Vec<TQ>,
+}
+
+fn tile_case() -> impl Strategy<Value = TileCase> {
+    (
+        anchor(),
+        (-40i32..20, -40i32..20, any::<u8>(), any::<u8>(), prop_oneof![3 => Just(0u8), 1 => Just(1u8), 1 => Just(2u8)]),
+        prop_oneof![5 => prop::collection::vec(tl_block(), 1..=1), 3 => prop::collection::vec(tl_block(), 2..=2), 2 => prop::collection::vec(tl_block(), 3..=3)],
+        (0u8..3, valspec(), any::<u32>(), any::<u32>(), any::<bool>(), any::<bool>()),
+        prop::collection::vec(tq_strategy(), 24..=40),
+    )
+        .prop_map(|(an, (a, b, sp_lat, sp_lon, second), blocks, (vmode, vals, name_seed, perm_seed, big_endian, end_rec), qs)| TileCase {
+            f: TileSpec { lat0_q: an.0 + a, lon0_q: an.1 + b, sp_lat, sp_lon, second, blocks, vmode, vals, name_seed, perm_seed, big_endian, end_rec },
+            qs,
+        })
+}
+
+/// the bound exactly as the NTv2 header parser computes it (src/grid/ntv2/subgrid.rs)
+fn libr(sec: f64) -> f64 {
+    sec.to_radians() / 3600.0
+}
+
+fn nth_perm(n: usize, mut idx: usize) -> Vec<usize> {
+    let mut pool: Vec<usize> = (0..n).collect();
+    let mut out = Vec::with_capacity(n);
+    for i in (1..=n).rev() {
+        let f: usize = (1..i).product();
+        out.push(pool.remove(idx / f));
+        idx %= f;
+    }
+    out
+}
+
+/// bands of a signed distance in cells (positive = inside): 0 within the documented 1e-6 cell tolerance of the
+/// edge (|d| < 3e-7), 1 clearly inside (> 3e-6), -1 clearly outside (< -3e-6), 9 neither (never asserted)
+fn tl_band(d: f64) -> i8 {
+    if d.abs() < 3.0e-7 {
+        0
+    } else if d > 3.0e-6 {
+        1
+    } else if d < -3.0e-6 {
+        -1
+    } else {
+        9
+    }
+}
+
+struct TlModel {
+    /// s, n, w, e, dlat, dlon as the library holds them
+    b: Vec<[f64; 6]>,
+    roots: Vec<usize>,
+    children: Vec<Vec<usize>>,
+    parent: Vec<Option<usize>>,
+}
+
+struct TlExpect {
+    cands: Vec<usize>,
+    some_required: bool,
+    none_required: bool,
+    label: &'static str,
+}
+
+impl TlModel {
+    /// N, S, E, W distances in cells of sub-grid i, expanded by `m` cells
+    fn d(&self, i: usize, x: f64, y: f64, m: f64) -> [f64; 4] {
+        let g = &self.b[i];
+        [(g[1] - y) / g[4] + m, (y - g[0]) / g[4] + m, (g[3] - x) / g[5] + m, (x - g[2]) / g[5] + m]
+    }
+    fn closed_tol(&self, i: usize, x: f64, y: f64, m: f64) -> Option<bool> {
+        let bs = self.d(i, x, y, m).map(tl_band);
+        if bs.contains(&9) {
+            return None;
+        }
+        Some(bs.iter().all(|b| *b >= 0))
+    }
+    /// the documented rule: contained within the tolerance and not (within the tolerance) on the north or east edge
+    fn accept_doc(&self, i: usize, x: f64, y: f64) -> Option<bool> {
+        let bs = self.d(i, x, y, 0.0).map(tl_band);
+        if bs.contains(&9) {
+            return None;
+        }
+        Some(bs.iter().all(|b| *b >= 0) && bs[0] != 0 && bs[2] != 0)
+    }
+    /// plain half-open containment, exact comparisons
+    fn accept_geo(&self, i: usize, x: f64, y: f64) -> Option<bool> {
+        let g = &self.b[i];
+        Some(g[0] <= y && y < g[1] && g[2] <= x && x < g[3])
+    }
+    fn exactly_inside_closed(&self, i: usize, x: f64, y: f64) -> bool {
+        let g = &self.b[i];
+        g[0] <= y && y <= g[1] && g[2] <= x && x <= g[3]
+    }
+    /// Ok(Some(deepest acceptor)), Ok(None) when no root accepts, Err when the rule is not unambiguous here
+    fn walk(&self, x: f64, y: f64, accept: &dyn Fn(usize, f64, f64) -> Option<bool>) -> Result<Option<usize>, ()> {
+        let mut cur: Option<usize> = None;
+        let mut level: &Vec<usize> = &self.roots;
+        loop {
+            let mut hit = None;
+            for &c in level {
+                if accept(c, x, y).ok_or(())? {
+                    if hit.is_some() {
+                        return Err(());
+                    }
+                    hit = Some(c);
+                }
+            }
+            match hit {
+                None => return Ok(cur),
+                Some(h) => {
+                    cur = Some(h);
+                    level = &self.children[h];
+                }
+            }
+        }
+    }
+    fn expect(&self, x: f64, y: f64, margin: f64, exact: bool) -> Option<TlExpect> {
+        let n = self.b.len();
+        let mut cands: Vec<usize> = vec![];
+        let doc = self.walk(x, y, &|i, x, y| self.accept_doc(i, x, y)).ok()?;
+        let fallback = |cands: &mut Vec<usize>| -> Option<bool> {
+            // no root accepts: any root containing the point within the margin (the first in file order is documented)
+            let mut sure = false;
+            for &r in &self.roots {
+                if self.closed_tol(r, x, y, margin)? {
+                    if !cands.contains(&r) {
+                        cands.push(r);
+                    }
+                    sure |= self.d(r, x, y, margin).iter().all(|d| tl_band(*d) == 1);
+                }
+            }
+            Some(sure)
+        };
+        let mut sure = false;
+        match doc {
+            Some(o) => cands.push(o),
+            None => sure |= fallback(&mut cands)?,
+        }
+        if !exact {
+            match self.walk(x, y, &|i, x, y| self.accept_geo(i, x, y)).ok()? {
+                Some(o) => {
+                    if !cands.contains(&o) {
+                        cands.push(o)
+                    }
+                }
+                None => {
+                    fallback(&mut cands)?;
+                }
+            }
+        }
+        let inside_exact = self.roots.iter().any(|&r| self.exactly_inside_closed(r, x, y));
+        let inside_far = self.roots.iter().any(|&r| self.d(r, x, y, 0.0).iter().all(|d| tl_band(*d) == 1));
+        let some_required = !cands.is_empty() && (inside_exact || inside_far || sure || (doc.is_some() && margin >= 0.5));
+        // labels, from the documented walk
+        let rejected_upper: Vec<usize> = (0..n).filter(|&i| self.closed_tol(i, x, y, 0.0) == Some(true) && self.accept_doc(i, x, y) == Some(false)).collect();
+        let chain = |mut o: usize| {
+            let mut v = vec![o];
+            while let Some(p) = self.parent[o] {
+                v.push(p);
+                o = p;
+            }
+            v
+        };
+        let owner_chain = doc.map(chain).unwrap_or_default();
+        let (mut shared, mut junction) = (false, false);
+        for &g in &rejected_upper {
+            if owner_chain.iter().any(|&o| o != g && self.parent[o] == self.parent[g]) {
+                shared = true;
+                junction |= (0..n).filter(|&i| self.parent[i] == self.parent[g] && self.closed_tol(i, x, y, 0.0) == Some(true)).count() >= 3;
+            }
+        }
+        let label = if cands.is_empty() {
+            "outside"
+        } else if junction {
+            "junction: >= 3 siblings touch, owner = the one having the point on its lower edges"
+        } else if shared {
+            "shared edge: upper edge of one sibling = lower edge of the owner"
+        } else if !rejected_upper.is_empty() {
+            "outer upper edge: no sibling beyond, enclosing grid"
+        } else if doc.map(|o| self.d(o, x, y, 0.0).iter().any(|d| tl_band(*d) == 0)).unwrap_or(false) {
+            "lower edge of the owner"
+        } else if doc.is_some() {
+            "clear of every edge of the owner"
+        } else {
+            "root margin"
+        };
+        Some(TlExpect { none_required: cands.is_empty(), cands, some_required, label })
+    }
+}
+
+fn check_tiled(c: &TileCase, rec: &mut Rec) -> CaseResult {
+    let (subs, shape) = tl_resolve(&c.f);
+    let n = subs.len();
+    if n < 3 {
+        rec.class("degenerate(no tiling)");
+        return Ok(());
+    }
+    let m = MNt::new(&subs);
+    let tm = TlModel {
+        b: subs.iter().map(|s| [libr(s.s_lat), libr(s.n_lat), libr(s.w_lon), libr(s.e_lon), libr(s.dlat), libr(s.dlon)]).collect(),
+        roots: m.roots.clone(),
+        children: m.children.clone(),
+        parent: subs.iter().map(|s| s.parent).collect(),
+    };
+    rec.class(&shape);
+    rec.class(&format!("subgrids={n}"));
+    rec.class(&format!("depth={}", subs.iter().map(|s| s.depth).max().unwrap_or(0)));
+    rec.class(&format!("roots={}", m.roots.len()));
+    rec.class(if c.f.big_endian { "big-endian" } else { "little-endian" });
+    rec.class(["values: independent field per sub-grid", "values: one constant per sub-grid", "values: one constant per depth (tiles agree, parent differs)"][(c.f.vmode % 3) as usize]);
+    let nested_tilings = (0..n).filter(|&i| subs[i].depth >= 1 && m.children[i].len() >= 2).count();
+    if nested_tilings > 0 {
+        rec.class("nested-tiling(>=2 abutting children of a child)");
+    }
+    let tree = subs.iter().map(|s| format!("{}<-{} lat[{},{}] lon[{},{}] inc({},{})", s.name, s.parent_name, s.s_lat, s.n_lat, s.w_lon, s.e_lon, s.dlat, s.dlon)).collect::<Vec<_>>().join(" | ");
+
+    // queries and their expectation (independent of the file order)
+    let root_cell = (tm.b[0][4], tm.b[0][5]);
+    let dmin = (tm.b.iter().map(|g| g[4]).fold(f64::INFINITY, f64::min), tm.b.iter().map(|g| g[5]).fold(f64::INFINITY, f64::min));
+    let vary = |sec: f64, v: u8, rc: f64, dm: f64| -> f64 {
+        let l = libr(sec);
+        match v {
+            0 => l,
+            1 => (sec / 3600.0).to_radians(),
+            2 => l.next_up(),
+            3 => l.next_down(),
+            4 => l + 1e-9 * rc,
+            5 => l - 1e-9 * rc,
+            6 => l + 1e-2 * dm,
+            7 => l - 1e-2 * dm,
+            8 => l + 1e-3 * dm,
+            _ => l - 1e-3 * dm,
+        }
+    };
+    struct Pt {
+        x: f64,
+        y: f64,
+        desc: String,
+        e: [Option<(TlExpect, Vec<Cand>)>; 2],
+    }
+    let mut pts: Vec<Pt> = vec![];
+    for (qi, q) in c.qs.iter().enumerate() {
+        let g = &subs[pick(q.sub, n)];
+        let along_x = |a: f64| if q.at_node { libr(g.w_lon + pick(q.node, g.cols) as f64 * g.dlon) } else { libr(g.w_lon + a * (g.e_lon - g.w_lon)) };
+        let along_y = |a: f64| if q.at_node { libr(g.s_lat + pick(q.node, g.rows) as f64 * g.dlat) } else { libr(g.s_lat + a * (g.n_lat - g.s_lat)) };
+        let inner = 0.02 + 0.96 * q.a1.0;
+        let ext = -0.6 + 2.2 * q.a1.0;
+        let vx = |sec: f64| vary(sec, q.vx, root_cell.1, dmin.1);
+        let vy = |sec: f64| vary(sec, q.vy, root_cell.0, dmin.0);
+        let (x, y, ex, ey) = match q.feat {
+            0 => (along_x(inner), vy(g.n_lat), 0, q.vy),
+            1 => (along_x(inner), vy(g.s_lat), 0, q.vy),
+            2 => (vx(g.e_lon), along_y(inner), q.vx, 0),
+            3 => (vx(g.w_lon), along_y(inner), q.vx, 0),
+            4 => (vx(g.e_lon), vy(g.n_lat), q.vx, q.vy),
+            5 => (vx(g.w_lon), vy(g.n_lat), q.vx, q.vy),
+            6 => (vx(g.e_lon), vy(g.s_lat), q.vx, q.vy),
+            7 => (vx(g.w_lon), vy(g.s_lat), q.vx, q.vy),
+            8 => (libr(g.w_lon + inner * (g.e_lon - g.w_lon)), libr(g.s_lat + (0.02 + 0.96 * q.a2.0) * (g.n_lat - g.s_lat)), 0, 0),
+            9 => (libr(g.w_lon + ext * (g.e_lon - g.w_lon)), vy(g.n_lat), 0, q.vy),
+            10 => (libr(g.w_lon + ext * (g.e_lon - g.w_lon)), vy(g.s_lat), 0, q.vy),
+            11 => (vx(g.e_lon), libr(g.s_lat + ext * (g.n_lat - g.s_lat)), q.vx, 0),
+            _ => (vx(g.w_lon), libr(g.s_lat + ext * (g.n_lat - g.s_lat)), q.vx, 0),
+        };
+        // "exact": the coordinate across an edge is the bound itself in one of its two roundings, or clear of it
+        let exact = [ex, ey].iter().all(|v| !(2..=5).contains(v));
+        let kind = match [ex, ey].iter().map(|v| match v { 0 | 1 => 0, 2 | 3 => 2, 4 | 5 => 3, _ => 1 }).max().unwrap_or(0) {
+            0 => "on the bound",
+            1 => "1e-3..1e-2 finest cell off",
+            2 => "one ulp off",
+            _ => "1e-9 cell off",
+        };
+        let feat = ["side", "corner", "interior", "side line continued"][match q.feat { 0..=3 => 0, 4..=7 => 1, 8 => 2, _ => 3 }];
+        let mut e: [Option<(TlExpect, Vec<Cand>)>; 2] = [None, None];
+        let mut visible = false;
+        for (mi, margin) in [0.0, 0.5].into_iter().enumerate() {
+            match tm.expect(x, y, margin, exact) {
+                None => rec.count("tolerance_band_not_asserted", 1),
+                Some(te) => {
+                    let cs: Vec<Cand> = te.cands.iter().map(|&i| m.cand(i, x, y)).collect();
+                    rec.class(&format!("{}; {}", te.label, if te.label.starts_with("clear") || te.label == "outside" || te.label == "root margin" { "-" } else { kind }));
+                    if !te.cands.is_empty() && (te.label.starts_with("shared") || te.label.starts_with("junction")) {
+                        // would the enclosing grid give a different number?
+                        if let Some(p) = subs[te.cands[0]].parent {
+                            let pc = m.cand(p, x, y);
+                            visible = (0..2).any(|b| (pc.val[b] - cs[0].val[b]).abs() > 50.0 * REL * pc.scale[b].max(cs[0].scale[b]));
+                        }
+                    }
+                    e[mi] = Some((te, cs));
+                }
+            }
+        }
+        if visible {
+            rec.count("shared_edge_points_where_parent_and_tile_differ", 1);
+            rec.nontrivial(&(hash_bytes(tree.as_bytes()), qi, x.to_bits(), y.to_bits()));
+        }
+        pts.push(Pt { x, y, desc: format!("{feat} of '{}' ({kind})", g.name), e });
+    }
+
+    // every file order for small trees, a sample (always with the tree order and its reverse) otherwise
+    let perms: Vec<Vec<usize>> = if n <= TL_ALL_PERMS_UP_TO {
+        rec.class(&format!("file orders: all {}! permutations", n));
+        (0..(1..=n).product::<usize>()).map(|i| nth_perm(n, i)).collect()
+    } else {
+        rec.class(&format!("file orders: tree order, reverse and {} sampled", TL_SAMPLED_PERMS));
+        let mut v = vec![(0..n).collect::<Vec<_>>(), (0..n).rev().collect::<Vec<_>>()];
+        for k in 0..TL_SAMPLED_PERMS {
+            v.push(file_order(n, c.f.perm_seed ^ (mix(k as u64 + 1) as u32)));
+        }
+        v
+    };
+    let mut fails = Fails::default();
+    for order in &perms {
+        let bytes = nt_encode(&subs, order, c.f.big_endian, c.f.end_rec, ("SRC", "DST"), [6378388.0, 6356911.946, 6378137.0, 6356752.314], ("20260928", "20260928"));
+        let grid = match guard(|| Ntv2Grid::new(&bytes)) {
+            Err(p) => vfail!(format!("panic-ntv2-decode@{}", p.sig()), "Ntv2Grid::new panics on a well-formed file: {} at {}:{}\nspec {}", p.msg, p.file, p.line, json(&c.f)),
+            Ok(Err(e)) => vfail!("ntv2-rejects-well-formed", "Ntv2Grid::new rejects a well-formed file: {e:?}\nspec {}\nsub-grids {tree}\nfile order {order:?}", json(&c.f)),
+            Ok(Ok(g)) => g,
+        };
+        rec.count("files_decoded", 1);
+        for pt in &pts {
+            let p = Coor4D::raw(pt.x, pt.y, 0.0, 0.0);
+            for (mi, margin) in [0.0, 0.5].into_iter().enumerate() {
+                let Some((te, cs)) = &pt.e[mi] else { continue };
+                let (got, _) = lib_at(&grid, &p, margin)?;
+                rec.count("lookups", 1);
+                let ctx = || format!("NTv2 spec {}\nsub-grids (arcsec, lon east-positive): {tree}\nfile order (indices into that list) {order:?}, {} byte order\nquery: {} at (lon={:?}, lat={:?}) rad = ({:?}\", {:?}\"); class '{}'; acceptable owner(s): {}", json(&c.f), if c.f.big_endian { "big-endian" } else { "little-endian" }, pt.desc, pt.x, pt.y, pt.x.to_degrees() * 3600.0, pt.y.to_degrees() * 3600.0, te.label, if cs.is_empty() { "none (outside)".to_string() } else { fmt_cands(cs, 2) });
+                match got {
+                    None => {
+                        if te.some_required {
+                            fails.push("ntv2-abutting-siblings-none", format!("Ntv2Grid::at(margin {margin}) = None for a point the file covers\n{}", ctx()));
+                        }
+                    }
+                    Some(v) => {
+                        let v = [v[0], v[1], v[2], v[3]];
+                        if te.none_required {
+                            fails.push("ntv2-some-outside", format!("Ntv2Grid::at(margin {margin}) = {:?} for a point outside every root grid and its margin\n{}", &v[..2], ctx()));
+                        } else if let Some(cd) = cs.iter().filter(|cd| close_to(&v, cd, 2, 0.0)).min_by(|a, b| worst_rel(&v, a, 2).total_cmp(&worst_rel(&v, b, 2))) {
+                            rec.metric("worst_rel_value_error", worst_rel(&v, cd, 2));
+                        } else {
+                            let other = (0..n).find(|&i| close_to(&v, &m.cand(i, pt.x, pt.y), 2, 0.0));
+                            let ancestor = other.map(|o| te.cands.iter().any(|&cnd| { let mut a = subs[cnd].parent; while let Some(p) = a { if p == o { return true; } a = subs[p].parent; } false })).unwrap_or(false);
+                            let key = match other {
+                                Some(_) if ancestor => "ntv2-abutting-siblings-enclosing-grid-used",
+                                Some(_) => "ntv2-abutting-siblings-wrong-subgrid",
+                                None => "ntv2-abutting-siblings-value-mismatch",
+                            };
+                            fails.push(key, format!("Ntv2Grid::at(margin {margin}) = {:?} (lon, lat shift rad) is the interpolation in {}, not in the deepest sub-grid containing the point (upper edges exclusive, lower edges inclusive, tolerance 1e-6 cell; value tolerance {REL} x max|corner|)\n{}", &v[..2], other.map(|i| format!("sub-grid '{}'", m.names[i])).unwrap_or("no sub-grid of the file".into()), ctx()));
+                        }
+                    }
+                }
+            }
+        }
+        if !fails.0.is_empty() {
+            break;
+        }
+    }
+    fails.finish()
+}
+
 // ---- main ------------------------------------------------------------------------------------------------
 
 fn main() {
@@ -2326,6 +2914,7 @@ fn main() {
     run.assume("Gravsoft conventions from src/grid/mod.rs comments and Rumination 002 'gridshift' Units: header lat_s lat_n lon_w lon_e dlat dlon in degrees; 2 bands = (lat, lon) arcsec -> internal (lon, lat) rad; 3 bands = (north, east, up) mm/yr -> (east, north, up) m/yr; 1 band = metres; any |bound| > 720 ('larger than 2x360'): linear grid, header and values untouched (band order of linear grids = file order, as 'kept unchanged'); bounds of exactly +-720 or anywhere inside are angular; queries use the longitude convention of the grid header (the library does not wrap).");
     run.assume("NTv2 conventions (parser comments, NTv2 spec, checked in selftest against ntv2_cvt values quoted in the repository test and by re-encoding the three shipped .gsb files byte for byte): bounds/increments in arcsec, longitudes and longitude shifts positive WEST, nodes from the south-east corner westwards then northwards, record = lat shift, lon shift, 2 accuracies; delivered value = (lon shift east-positive, lat shift) rad.");
     run.assume("NTv2 owner = deepest sub-grid containing the point; not asserted closer than 1e-4 cell to any sub-grid border (DESIGN S), there the result must equal the interpolation in one of the sub-grids touching the point (continuity only) and must be Some when the point is strictly inside a root grid. Outside all roots: any root within the margin. Sibling sub-grids never overlap (NTv2 spec); generated trees obey that.");
+    run.assume("Section ntv2-abutting-siblings narrows the 1e-4 cell knife-edge band where the documented rule is unambiguous (find_grid comments: containment and upper-edge tests both with a tolerance of 1e-6 grid cells, 'points on either upper latitude or longitude are considered outside the grid'; repository test ntv2_multi_subgrid_find_grid: lower edges of a sub-grid inclusive, upper edges fall to the enclosing grid): a coordinate that IS a header bound (either rounding order of arcsec -> rad) or is > 3e-6 cell away from every bound has exactly one documented owner: the deepest sub-grid that contains it and does not have it on its north/east edge, i.e. on an edge shared by two siblings the one having it as its lower edge, else the enclosing grid; asserted for every file order. One ulp or 1e-9 cell beside a bound the acceptable owners are that one and the owner under exact half-open containment (never another level). Distances between 3e-7 and 3e-6 cell of any bound are never generated/asserted. Some() at margin 0 is required only for points inside the closed extent of a root by exact comparison (or clearly inside); when no root accepts the point (outer north/east edge of a root) any root containing it within the margin is acceptable.");
     run.assume("A point that is inside a ROOT grid of an NTv2 file by more than rounding (>= 1e-9 cell; the limits are reproduced to < 1e-12 cell) is contained by the file at margin 0 whichever sub-grid serves it: Some/contains is asserted there, in lists the hit is certain (value = any touching sub-grid). Query class 'root-upper-edge' puts points ON the north/east limit and NE corner of root grids (the smaller of the two plausible roundings of the limit, stepped one ulp inwards, so never outside under either) and 1e-7..1e-5 cell inside; the repository's own test (on_root_upper_lat/lon) and 'on the border qualifies as within' say such points belong to the root grid.");
     run.assume("Plain from files: an operator instantiated while a named grid file exists uses it, also when an earlier instantiation in the same context named the (then absent) file as '@optional' (Rumination 002: optional grids do not block instantiation 'if they are unavailable'; nothing makes unavailability permanent). Cases of this kind use file names unique to the case and remove them afterwards; a failure is attributed to the late appearance only if the same case passes with the files in place from the start (key prefix plain-late-grid-file/).");
     run.assume("grids_at doc comment: slice order, first hit with margin 0, then first hit with margin 0.5, else origin if use_null_grid else None.");
@@ -2348,6 +2937,14 @@ fn main() {
         n,
         nt_case,
         check_ntv2,
+    );
+    let n = run.scale(1_500, 40_000);
+    run.section(
+        "ntv2-abutting-siblings",
+        "NTv2 files whose sibling sub-grids ABUT: 1-2 abutting roots, root 0 tiled (wholly or partly, flush with its lower/upper edges or not) by 1x2..3x3 children sharing meridians/parallels exactly (tile sizes 1..2 parent cells, own refinement 2..5 each, optionally with holes), up to two further tilings nested in a tile or in the second root (cousins abutting across a tile border), <= 12 sub-grids; node values inconsistent between levels (independent field / constant per sub-grid / constant per depth); both byte orders; EVERY permutation of the records for files of <= 5 sub-grids (120), tree order + reverse + 32 sampled otherwise; 24..40 queries on sides, corners (incl. 4-tile junctions), continued side lines and interiors of random sub-grids, the coordinate across the edge being the bound itself (both rounding orders), +-1 ulp, +-1e-9 cell, +-1e-3/1e-2 finest cell; margins {0, 0.5}; reference = documented rule (lower edges inclusive, upper edges exclusive, 1e-6 cell tolerance, deepest acceptor; enclosing grid when no sibling has the point on its lower edge), independent of file order; non-trivial = point on an edge shared by siblings where parent and owner interpolate to different numbers",
+        n,
+        tile_case,
+        check_tiled,
     );
     let n = run.scale(12_000, 300_000);
     run.section(
